@@ -272,7 +272,8 @@ theorem pending_run (s0 : Sys) (st0 : HubSt)
     (n : Nat) (s : Sys) (q : List Msg) (s' : Sys) (inv : PInv s0 s q) (hrun : Sys.run n s q = .ok s') :
     st0.bRate * (s'.bsei.supply + s'.hub.reqB) ≤ s'.hub.bBond * D ∧
     st0.sRate * (s'.stsei.supply + s'.hub.reqS) ≤ s'.hub.sBond * D ∧
-    s'.hub.bBond + s'.hub.sBond ≤ totalDelegated s' := by
+    s'.hub.bBond + s'.hub.sBond ≤ totalDelegated s' ∧
+    s'.hub.bsei = some bseiA ∧ s'.hub.stsei = some stseiA ∧ ChainOK s' := by
   have fin := run_inv2 (fun a b => PInv s0 a b ∨ RInv (virt s0 st0) a b)
     (pending_step s0 st0 hst0 btok0 stok0 hd hz hz0 backB backS) n s q s' (Or.inl inv) hrun
   rcases fin with p | r
@@ -294,6 +295,6 @@ theorem pending_run (s0 : Sys) (st0 : HubSt)
       show rateOf st0.sBond s0.stsei.supply st0.reqS = _; rw [sb0.reqS, f.2.2.2.2.2.1]
     rw [rbV] at tb
     rw [rsV] at ts
-    exact ⟨tb, ts, r.book.drained⟩
+    exact ⟨tb, ts, r.book.drained, r.btok, r.stok, r.book.chain⟩
 
 end Krp
